@@ -92,6 +92,8 @@ type MainFinal struct {
 	Zombies   int              `json:"zombies"` // DB objects that hold a SQLite handle after every Close returned
 	Objects   int              `json:"objects"`
 	Acks      []AckObs         `json:"acks,omitempty"` // acknowledgements observed while the writers were running
+	LastK     int64            `json:"last_k"`         // highest ledger value whose Commit returned to the application
+	AppCkpts  int64            `json:"app_ckpts"`      // application-side wal_checkpoint(TRUNCATE|RESTART|PASSIVE) calls that completed
 }
 
 // AckObs is one acknowledged replication round (SyncAndWait / Store.SyncDB(wait) /
@@ -174,7 +176,8 @@ type mainDB struct {
 
 	commits, rollbacks, busy atomic.Int64
 
-	lastK atomic.Int64 // highest ledger value whose Commit has returned
+	lastK    atomic.Int64 // highest ledger value whose Commit has returned
+	appCkpts atomic.Int64
 	ackMu sync.Mutex
 	acks  []AckObs
 }
@@ -796,6 +799,15 @@ func (c *child) writer(w int, m *mainDB) {
 				break
 			}
 		}
+		if rng.Intn(40) == 0 {
+			// the application checkpoints its own database now and then (what an application
+			// with wal_autocheckpoint or a maintenance job does while litestream runs)
+			mode := []string{"TRUNCATE", "RESTART", "PASSIVE", "TRUNCATE"}[rng.Intn(4)]
+			var a, b, c2 int
+			if err := m.w.QueryRowContext(ctx, `PRAGMA wal_checkpoint(`+mode+`)`).Scan(&a, &b, &c2); err == nil {
+				m.appCkpts.Add(1)
+			}
+		}
 		if rng.Intn(3) == 0 {
 			time.Sleep(time.Duration(rng.Intn(4000)) * time.Microsecond)
 		}
@@ -1075,6 +1087,7 @@ func (c *child) run(fin *Final) {
 		m.ackMu.Lock()
 		mf.Acks = m.acks
 		m.ackMu.Unlock()
+		mf.LastK, mf.AppCkpts = m.lastK.Load(), m.appCkpts.Load()
 	}
 	fin.Mains = finals
 	// application connections go away, then nothing of ours or litestream's may be left
